@@ -88,6 +88,12 @@ func oracleC09(x *Exec, so *StepObs) {
 	evs := recordTimeline(x, so)
 	// exactly one creator per revision
 	creator := map[int]string{}
+	prunes := map[string]bool{} // operations that prune history (--history-max)
+	for _, r := range so.Results {
+		if r.Op.MaxHistory > 0 && r.Op.Op != "uninstall" {
+			prunes[r.Proc] = true
+		}
+	}
 	for _, e := range evs {
 		if e.kind != "create" {
 			continue
@@ -95,8 +101,13 @@ func oracleC09(x *Exec, so *StepObs) {
 		if c, dup := creator[e.rev]; dup {
 			cause := "none"
 			for _, d := range evs {
-				if d.kind == "delete" && d.rev == e.rev && d.proc == e.proc && d.seq < e.seq {
-					cause = "second-creator-pruned-the-first-record"
+				if d.kind == "delete" && d.rev == e.rev && d.seq < e.seq {
+					if d.proc == e.proc {
+						cause = "second-creator-pruned-the-first-record"
+					} else if d.proc != c && cause == "none" && prunes[d.proc] {
+						// with three operations the pruning one need not be the one whose create then succeeds
+						cause = "third-operation-pruned-the-first-record"
+					}
 				}
 			}
 			fail("one-creator-per-revision", cause, fmt.Sprintf("revision %d was created by %s and again by %s", e.rev, c, e.proc))
